@@ -192,3 +192,32 @@ func HC15_exec() {
 	}
 	vfAssert(len(errs) == 0, "C15/generated-file-compiles-with-its-source-package")
 }
+
+// HC15_execMaps: maps keyed by types with few values (an enum, bool) and by integers: the generated
+// function terminates and returns populated maps of well-formed keys and values. The random draws of
+// this harness follow the concrete stream (a map of symbolic keys forks on every insertion): what is
+// decided is termination and well-formedness on that stream.
+func HC15_execMaps() {
+	src := c15Decls + "\ntype T struct {\n\tByColor map[Color]int\n\tByBool map[bool]Mode\n\tPlain map[int]string\n\tNested map[Mode][]Color\n}\n"
+	pkg := vfTypeCheck("example.com/mod/p", []string{"/m/p/p.go"}, []string{src}, nil)
+	var text string
+	panicked, _, msg := vfCatch(func() {
+		ana := an.NewAnalysisFromFile(pkg, "/m/p/p.go")
+		text = execFixImports(gen.WriteDeclarations(Generate(ana)), "example.com/mod/p")
+	})
+	vfObserve("generation", msg)
+	vfAssert(!panicked, "C15/catalogue-is-accepted-by-the-generator")
+	if panicked {
+		vfStop()
+	}
+	check := "package p\n" + c15Helpers + "\nfunc Check() {\n\tvfRandConcrete(true)\n\tvar v T\n\tvfAssertTerminates(func() { v = randT() }, \"C15/generated-function-terminates\")\n" +
+		"\tvfAssert(len(v.ByColor) > 0 && len(v.ByBool) > 0 && len(v.Plain) > 0 && len(v.Nested) > 0, \"C15/maps-are-populated\")\n" +
+		"\tok := true\n\tfor k := range v.ByColor {\n\t\tok = vfAnd(ok, okColor(k))\n\t}\n\tfor _, m := range v.ByBool {\n\t\tok = vfAnd(ok, okMode(m))\n\t}\n" +
+		"\tfor k, cs := range v.Nested {\n\t\tok = vfAnd(ok, okMode(k))\n\t\tfor _, c := range cs {\n\t\t\tok = vfAnd(ok, okColor(c))\n\t\t}\n\t}\n" +
+		"\tvfAssert(ok, \"C15/map-keys-and-elements-are-well-formed\")\n}\n"
+	errs := vfExec("example.com/mod/p", []string{"/m/p/p.go", "/m/p/gen.go", "/m/p/check.go"}, []string{src, text, check}, nil, "Check")
+	if len(errs) > 0 {
+		vfObserve("error", errs[0])
+	}
+	vfAssert(len(errs) == 0, "C15/generated-file-compiles-with-its-source-package")
+}
